@@ -411,8 +411,8 @@ class _ActionHelpClassPath(Action):
             exit_on_error=parser.exit_on_error,
         )
         sub_add_kwargs = dict(self.sub_add_kwargs)  # the attribute may be the dict shared by all instances
-        if ActionTypeHint.is_callable_typehint(typehint) and hasattr(typehint, "__args__"):
-            sub_add_kwargs["skip"] = {max(0, len(typehint.__args__) - 1)}
+        if ActionTypeHint.is_callable_typehint(typehint) and len(getattr(typehint, "__args__", ())) > 1:
+            sub_add_kwargs["skip"] = {len(typehint.__args__) - 1}
         subparser.add_class_arguments(val_class, dest, **sub_add_kwargs)
         subparser._inner_parser = True
         remove_actions(subparser, (_HelpAction, _ActionPrintConfig, _ActionConfigLoad))
